@@ -28,6 +28,13 @@ func init() {
 	stdSpecs["io.ReadFull"] = specReadFull
 	stdSpecs["sort.Strings"] = specSortStrings
 	ghostSorts["G_lines"] = "(Array Int Int)"
+	ghostSorts["G_held"] = "(Array Int Bool)"
+	for _, m := range []string{"(*sync.Mutex)", "(*sync.RWMutex)"} {
+		stdSpecs[m+".Lock"] = specLock
+		stdSpecs[m+".Unlock"] = specUnlock
+		stdWrites[m+".Lock"] = []string{"G_held"}
+		stdWrites[m+".Unlock"] = []string{"G_held"}
+	}
 	ghostSorts["G_scanErr"] = "(Array Int Int)"
 	stdSpecs["bufio.NewScanner"] = specNewScanner
 	stdSpecs["(*bufio.Scanner).Scan"] = specScan
@@ -420,4 +427,53 @@ func specScanText(fr *frame, c *ssa.CallCommon, args []T, st *state, pos string)
 	t := fr.freshOf("scan_text", types.Typ[types.String], st)
 	vc.assume(st.reach, fmt.Sprintf("(=> (not (select %s %s)) (= %s 0))", vc.heapGet(st, "G_lastScanOK"), args[0].S, t.S))
 	return []T{t}
+}
+
+// sync.Mutex as ghost state: held(m) for the running goroutine.  Lock on a mutex already held by the caller
+// would deadlock (lock.free), Unlock of one not held panics (lock.held).
+func specLock(fr *frame, c *ssa.CallCommon, args []T, st *state, pos string) []T {
+	vc := fr.vc
+	vc.regHeap("G_held", ghostSorts["G_held"])
+	vc.assumedStd["sync.Mutex: Lock/Unlock modelled as the ghost flag held(m) of the running goroutine; mutual exclusion between goroutines is the meaning of the mutex, not proved here"] = true
+	h := vc.heapGet(st, "G_held")
+	fr.obligeHere("lock.free", "", st, fmt.Sprintf("(not (select %s %s))", h, args[0].S), pos)
+	vc.heapSet(st, "G_held", fmt.Sprintf("(store %s %s true)", h, args[0].S))
+	return []T{}
+}
+
+func specUnlock(fr *frame, c *ssa.CallCommon, args []T, st *state, pos string) []T {
+	vc := fr.vc
+	vc.regHeap("G_held", ghostSorts["G_held"])
+	h := vc.heapGet(st, "G_held")
+	fr.obligeHere("lock.held", "", st, fmt.Sprintf("(select %s %s)", h, args[0].S), pos)
+	vc.heapSet(st, "G_held", fmt.Sprintf("(store %s %s false)", h, args[0].S))
+	return []T{}
+}
+
+// callName: "Recv.Method" for methods (static or interface), "Func" otherwise; type arguments dropped.
+func callName(c *ssa.CallCommon) string {
+	strip := func(s string) string {
+		if i := strings.Index(s, "["); i >= 0 {
+			s = s[:i]
+		}
+		if i := strings.LastIndex(s, "."); i >= 0 {
+			s = s[i+1:]
+		}
+		return strings.TrimPrefix(s, "*")
+	}
+	if c.IsInvoke() {
+		return strip(types.TypeString(c.Value.Type(), func(*types.Package) string { return "" })) + "." + c.Method.Name()
+	}
+	callee := c.StaticCallee()
+	if callee == nil {
+		return ""
+	}
+	if callee.Signature.Recv() != nil {
+		rt := callee.Signature.Recv().Type()
+		if p, ok := unalias(rt).(*types.Pointer); ok {
+			rt = p.Elem()
+		}
+		return strip(types.TypeString(rt, func(*types.Package) string { return "" })) + "." + callee.Name()
+	}
+	return callee.Name()
 }
